@@ -315,6 +315,8 @@ class ExprMixin:
         return self.bind(self.ev(node.operand, p), k)
 
     def unary_extra(self, node, p, v):
+        if isinstance(v, VOpaque):
+            return [(p, VOpaque("arith on unmodelled value"))]
         raise Unsupported(f"unary {type(node.op).__name__} on {v!r}")
 
     def ev_BinOp(self, node, p):
